@@ -72,6 +72,7 @@ ASSUMPTIONS = [
     "staged edits: the application may have edited the TorConfig object (SocksPort or another option, also with a value "
     "Tor would refuse) without save() when a port Tor already has is asked for: nothing may be written then; when a "
     "later addition flushes that staged option too, the staged option's own key/value is not judged",
+    "a unix: entry is a listener whatever its path looks like (colons, a trailing ':0' or ':9050')",
     "SocksPort addresses may be host names (localhost, an FQDN): an endpoint connecting to that name (for localhost also "
     "to a loopback literal) matches; a request for the same port on a literal address is then counted as ambiguous",
     "another controller's change of SocksPort (FakeTor store + CONF_CHANGED) is placed inside the in-flight window of a "
@@ -639,6 +640,8 @@ def judge_step(case, step, nstep, rec, V):
                 (rclass == "none" and usable and all(is_name(i["target"]) for i in usable)):
             return "host-name-entry"
         relevant = [i for i in usable if i["first"] == ri["first"]] if rclass == "present" else usable
+        if relevant and all(i["target"][0] == "unix" and ":" in i["target"][1] for i in relevant):
+            return "unix-path-with-colon"
         if relevant and all(odd_ws(i["line"]) for i in relevant):
             return "options-after-tab-or-several-blanks"
         return "general/" + suffix
@@ -1080,7 +1083,13 @@ EXTRA_QUICK = [["127.0.0.1:0"], ["0", "127.0.0.1:0"], ["127.0.0.1:0", "9050 Isol
                ["unix:/run/tor/socks\tWorldWritable"], ["127.0.0.1:9051\tIsolateDestAddr", "9150"],
                ["9150", "192.168.7.2:9052\t\tIsolateDestAddr"], ["0", "9050\tIsolateDestAddr"],
                ["localhost:9056\tIsolateDestAddr"], ["[::1]:9054\tIsolateDestAddr", "unix:/run/tor/socks  GroupWritable"],
-               ["9050\tIsolateDestAddr", "9150  IsolateSOCKSAuth", "unix:/run/tor/socks \t WorldWritable"]]
+               ["9050\tIsolateDestAddr", "9150  IsolateSOCKSAuth", "unix:/run/tor/socks \t WorldWritable"],
+               # unix paths that contain colons / look like they end in a port
+               ["unix:/run/tor/socks:0"], ["unix:/run/tor/socks:0 WorldWritable"], ["unix:/run/tor/s:9050"],
+               ["unix:/run/tor/s:9050 GroupWritable IsolateDestAddr"], ["unix:/run/tor/trailing:"],
+               ['unix:"/run/tor dir/s:0"'], ['unix:"/run/tor dir/s:0" WorldWritable'], ["0", "unix:/run/tor/socks:0"],
+               ["unix:/run/tor/socks:0 WorldWritable", "127.0.0.1:0"], ["[::1]:9054", "unix:/run/a:b/socks:0"],
+               ["unix:/run/tor/socks:0", "9150 IsolateDestAddr"], ["auto", "unix:/run/tor/s:9050\tWorldWritable"]]
 
 
 SEPARATORS = [" ", "\t", "  ", " \t ", "\t\t"]        # Tor splits a port line on any white space
